@@ -34,11 +34,16 @@ def gq(x, sub=None):
         x = sp.sympify(getattr(x, 'sympy', x))
         if sub:
             x = x.subs(sub)
+        if x.is_Rational:
+            return q(x) + ',0/1'
         if x.free_symbols:
             return None
-        x = sp.nsimplify(x) if x.has(sp.Float) else x
-        re, im = sp.simplify(x).as_real_imag()
-        re, im = sp.nsimplify(sp.simplify(re)), sp.nsimplify(sp.simplify(im))
+        if x.has(sp.Float):
+            x = sp.nsimplify(x, rational=True)
+        re, im = x.as_real_imag()
+        if not (re.is_Rational and im.is_Rational):
+            re, im = sp.simplify(x).as_real_imag()
+            re, im = sp.simplify(re), sp.simplify(im)
         if re.is_Rational and im.is_Rational:
             return q(re) + ',' + q(im)
     except Exception:
@@ -352,7 +357,7 @@ def run(case):
     return run_circuit(case)
 
 
-class CaseTimeout(Exception):
+class CaseTimeout(BaseException):
     pass
 
 
@@ -367,7 +372,7 @@ def main():
     out = []
     for c in cases:
         try:
-            signal.alarm(int(c.get('timeout', 90)))
+            signal.alarm(int(c.get('timeout', 300)))
             try:
                 out.append(run(c))
             finally:
